@@ -25,6 +25,7 @@ const (
 	opSend = iota + 1
 	opRecv
 	opSelect
+	opWait
 )
 
 type selCase struct {
@@ -57,7 +58,51 @@ type gthread struct {
 	killed   bool
 }
 
+// sync.WaitGroup: a counter per WaitGroup object and the threads parked in Wait
+type wgState struct {
+	count   int
+	waiters []*gthread
+}
+
+func (e *Engine) wgOf(p *value) *wgState {
+	if e.wgs == nil {
+		e.wgs = map[*value]*wgState{}
+	}
+	st := e.wgs[p]
+	if st == nil {
+		st = &wgState{}
+		e.wgs[p] = st
+	}
+	return st
+}
+
+func (e *Engine) wgAdd(p *value, delta int) {
+	st := e.wgOf(p)
+	st.count += delta
+	if st.count < 0 {
+		panic(targetPanic{iface{t: e.runtimeErrT, v: "sync: negative WaitGroup counter"}})
+	}
+	if st.count == 0 {
+		for _, t := range st.waiters {
+			if t.op != nil {
+				e.unblock(t)
+			}
+		}
+		st.waiters = nil
+	}
+}
+
+func (e *Engine) wgWait(p *value) {
+	st := e.wgOf(p)
+	if st.count == 0 {
+		return
+	}
+	st.waiters = append(st.waiters, e.cur)
+	e.block(&chanOp{kind: opWait})
+}
+
 func (e *Engine) resetThreads() {
+	e.wgs = nil
 	e.threads = e.threads[:0]
 	e.mainT = &gthread{id: 0, wake: make(chan struct{}, 1)}
 	e.cur = e.mainT
